@@ -3608,6 +3608,7 @@ namespace detail {
         const char_type* input_end_{nullptr};
         const char_type* p_{nullptr};
         std::vector<token<Json>> operator_stack_;
+        std::vector<std::size_t> paren_marks_; // output stack size at each open '('
 
     public:
         jmespath_evaluator()
@@ -3634,6 +3635,7 @@ namespace detail {
             std::vector<expr_state> state_stack;
             std::vector<token<Json>> output_stack;
             string_type key_buffer;
+            paren_marks_.clear();
 
             state_stack.push_back(expr_state::start);
 
@@ -3810,6 +3812,7 @@ namespace detail {
                             {
                                 ++p_;
                                 ++column_;
+                                paren_marks_.push_back(output_stack.size());
                                 push_token(lparen_arg, resources, output_stack, ec);
                                 if (JSONCONS_UNLIKELY(ec)) {return jmespath_expression{};}
                                 state_stack.back() = expr_state::expect_rparen;
@@ -5401,6 +5404,26 @@ namespace detail {
                 case token_kind::rparen:
                     {
                         unwind_rparen(resources, output_stack, ec);
+                        if (JSONCONS_UNLIKELY(ec)) {return;}
+                        // A parenthesized expression is one operand: what is inside (pipes, projections)
+                        // must not leak into the expression around it.
+                        JSONCONS_ASSERT(!paren_marks_.empty());
+                        std::size_t mark = paren_marks_.back();
+                        paren_marks_.pop_back();
+                        if (mark < output_stack.size())
+                        {
+                            std::vector<token<Json>> toks;
+                            if (output_stack[mark].type() != token_kind::literal)
+                            {
+                                toks.emplace_back(current_node_arg);
+                            }
+                            for (std::size_t i = mark; i < output_stack.size(); ++i)
+                            {
+                                toks.emplace_back(std::move(output_stack[i]));
+                            }
+                            output_stack.erase(output_stack.begin() + static_cast<std::ptrdiff_t>(mark), output_stack.end());
+                            output_stack.push_back(resources.create_expression(function_expression(std::move(toks))));
+                        }
                         break;
                     }
                 case token_kind::end_function:
